@@ -1888,6 +1888,14 @@ val abs_disk : n -> n -> n -> bool -> disk -> abs_result
 
 val empty_disk : disk
 
+val go_disk_BlockSize : n
+
+val go_dir_MAXNAMELEN : n
+
+val go_inode_NDIRECT : n
+
+val go_inode_NBLKBLK : n
+
 val encode_inode : dinode -> bytes
 
 type 'entry slot = 'entry option
@@ -1963,6 +1971,8 @@ val need_blocks : call -> n
 val needs_inode : call -> bool
 
 val nospace_plausible : n -> call -> n -> n -> bool
+
+val limits_plausible : n -> n -> bool
 
 val cached_inode_ok : n -> disk -> n -> bytes -> bool
 
